@@ -302,13 +302,13 @@ def gen_plan(j, rng):
 
 def space(tier):
     sp = Space(ID)
-    sp.add("histories", 12000 if tier == "quick" else 600_000, gen_plan)
 
     def long_fn(j, rng):
-        n = (66000 if j == 0 else 5000) if tier == "quick" else (70000 if j == 0 else 9000)
+        n = (5000 if j == 0 else 4200) if tier == "quick" else (70000 if j == 0 else 9000)
         return {"config": {"version": 3, "token": rand_bytes(rng, 64).hex(), "key": rand_bytes(rng, 32).hex()},
                 "ops": [], "long_session": n}
-    sp.add("long_session", 2 if tier == "quick" else 4, long_fn)
+    sp.add("long_session", 2 if tier == "quick" else 4, long_fn)      # first: the longest runs start first
+    sp.add("histories", 12000 if tier == "quick" else 600_000, gen_plan)
     return sp
 
 
